@@ -10,7 +10,7 @@ use tracing_core::dispatch::{self, Dispatch};
 use tracing_core::span::{Attributes, Current, Id, Record};
 use tracing_core::{Collect, Event, Metadata};
 use vcs::{Cs, Emitted, Fresh, Kind};
-use vlib::rec::{FilterCollector, Got, Spec};
+use vlib::rec::{FilterCollector, Got, Shared, Spec};
 use vlib::run::{self, Finish};
 use vlib::{chaos, json, Args, ChildSpec, Map, Mode, Out, Rng, Value};
 
@@ -771,6 +771,14 @@ fn scenario(
     // the process-wide default reached the way production code reaches it: from a thread that
     // has no scope (the losing set_global_default attempts of the race must not have harmed it)
     if let Some(ga) = &global {
+        // (a further, necessarily refused, installation attempt first: it must not disturb the
+        // installed one)
+        let extra = Arc::new(FilterCollector::new(0xFFFE, Spec { thresh: 0, targets: 0, dynamic: false, hint: Some(0) }, true));
+        if dispatch::set_global_default(Dispatch::new(Shared(extra))).is_ok() {
+            out.violation("a second set_global_default returned Ok", witness(json!({"installed": format!("c{}", ga.cid)})));
+            return Err(());
+        }
+        out.count("refused_set_global_default_attempts_at_quiescence", 1);
         for c in &touched {
             qid += 1;
             emit(c, qid);
